@@ -47,7 +47,11 @@ tests), in two different functions/mechanisms, each of which
      comparing or sorting paths as plain strings (string prefix instead of component prefix,
      suffix-string sort), replacing an ordered list by a set, dropping one character from an
      escape table, keeping the first instead of the last duplicate, a missing try/finally around
-     a stack push, '<' vs '<=' tie-breaks.  Do not hand in another one of those.  Look deeper:
+     a stack push, '<' vs '<=' tie-breaks, turning a prerequisite into an order-only one,
+     touching a stamp before instead of after the command, memoising a result that depends on
+     the caller, converting a string lazily after the script context is gone, emitting a
+     variable only when the first user needs it, ignoring one input in an up-to-date check.
+     Do not hand in another one of those.  Look deeper:
      state carried from one run to the next (caches, saved files, time stamps), error and
      abort paths, features that are rarely combined, the second back end, tool-chain or
      platform variants, the order of two writes, values that are computed twice in two places
